@@ -210,6 +210,7 @@ def gen_gd(rng, tier):
         return None
     case["op"] = rng.choice(["marginalize", "marginalize", "reduce", "reduce", "canonical", "product", "canon_ops", "canon_ops"])
     case["prime"] = rng.choice(["none", "none", "precision", "canonical", "copy_precision"])     # what was asked of the object before
+    case["inplace"] = rng.random() < .4       # operate in place while other objects were built from the same list of names
     sub = rng.sample(range(n), rng.randint(1, n - 1))
     case["sub"] = sub
     case["vals"] = [rs(Fraction(rng.randint(-8, 8), 2)) for _ in sub]
@@ -242,12 +243,29 @@ def run_gd(case, drv):
         elif case.get("prime") == "copy_precision":
             gd.precision_matrix
             gd = gd.copy()
+        siblings = None
+        if case.get("inplace") and op in ("marginalize", "reduce"):
+            # a second distribution built from the SAME list object, and a canonical form derived from the first one: an in-place
+            # operation on `gd` must leave them (and the caller's list) alone
+            shared = list(vars_)
+            gd = GaussianDistribution(shared, mean, cov)
+            twin = GaussianDistribution(shared, mean, cov)
+            canon = gd.to_canonical_factor()
+            siblings = (shared, twin, canon)
         if op == "marginalize":
-            res = gd.marginalize([vars_[i] for i in sub], inplace=False)
+            if siblings:
+                gd.marginalize([vars_[i] for i in sub], inplace=True)
+                res = gd
+            else:
+                res = gd.marginalize([vars_[i] for i in sub], inplace=False)
             exp_mean = [mean[i] for i in keep]
             exp_cov = [[cov[i][j] for j in keep] for i in keep]
         elif op == "reduce":
-            res = gd.reduce([(vars_[i], float(Fraction(x))) for i, x in zip(sub, case["vals"])], inplace=False)
+            if siblings:
+                gd.reduce([(vars_[i], float(Fraction(x))) for i, x in zip(sub, case["vals"])], inplace=True)
+                res = gd
+            else:
+                res = gd.reduce([(vars_[i], float(Fraction(x))) for i, x in zip(sub, case["vals"])], inplace=False)
             mc = drv.call("gauss_condition", mean=r["mean"], cov=r["cov"], a=keep, b=sub, xb=case["vals"])
             exp_mean = [float(Fraction(x)) for x in mc["mean"]]
             exp_cov = [[float(Fraction(x)) for x in row] for row in mc["cov"]]
@@ -285,6 +303,14 @@ def run_gd(case, drv):
         return fail(f"GaussianDistribution.{op} raised {type(e).__name__}: {e}", **tags)
     if list(res.variables) != [vars_[i] for i in keep]:
         return fail(f"{op}: variables {res.variables}", **tags)
+    if siblings:
+        shared, twin, canon = siblings
+        if shared != list(vars_):
+            return fail(f"in-place {op} changed the caller's list of variable names to {shared}", **tags)
+        if list(twin.variables) != list(vars_) or np.asarray(twin.mean).reshape(-1).shape[0] != n or np.asarray(twin.covariance).shape != (n, n):
+            return fail(f"in-place {op} on one distribution changed another distribution built from the same names: {twin.variables}", **tags)
+        if list(canon.variables) != list(vars_) or np.asarray(canon.K).shape != (n, n):
+            return fail(f"in-place {op} changed the canonical factor derived earlier: variables {canon.variables}", **tags)
     rm = np.asarray(res.mean).reshape(-1)
     rc = np.asarray(res.covariance)
     # float64 inversion of the conditioned / whole covariance: relative error ~ cond * 2^-53 (x10 safety), as for predict
